@@ -242,6 +242,8 @@ def cli_case(col, rng, tmpdir, watch):
     if target is None or target == '':
         target = {'a': target}     # (empty target text means {} by design; a bare null / '' document is not a distinct target)
     spec = gen_spec(rng, target, rng.randint(0, 3))
+    if rng.random() < 0.06:
+        spec = rng.choice([{}, [], ''])     # falsy literal specs are specs like any other ({} -> {}, '' -> the key '')
     empty_spec = rng.random() < 0.12       # no spec text at all: the CLI prints the target itself
     indent = rng.choice([None, None, 0, 1, 4])
     scalar = rng.random() < 0.2
